@@ -128,24 +128,17 @@ theorem findStart_first (c : Chain) (w : WF c) (loc : List Nat) :
         · exact hnone hb
         · exact ih.2 hf j hj
 
-/-- heights strictly increase — when `index += skip + 1` cannot wrap -/
-theorem locate_increasing_partial (c : Chain) (w : WF c) (loc : List Nat) (stop skip maxNum : Nat) (l : List Header) (sh : Header)
-    (hsh : c.byHash stop = some sh) (hnowrap : sh.height + skip < two64)
+/-- heights strictly increase — for EVERY skip value (since fix 78882ab0 the loop leaves at the
+    stop header as soon as `index + skip + 1` wraps around `uint64`) -/
+theorem locate_increasing (c : Chain) (w : WF c) (loc : List Nat) (stop skip maxNum : Nat) (l : List Header)
     (h : locateHeaders c loc stop skip maxNum = .ok l) : incr l := by
-  have ⟨g, sh', hg, hsh', hc⟩ := locate_cases h
-  rw [hsh] at hsh'; cases hsh'
+  have ⟨g, sh, hg, hsh, hc⟩ := locate_cases h
   rcases hc with rfl | ⟨_, he, rfl⟩ | ⟨hm, hlt, rest, hr, rfl⟩
   · simp [incr]
   · simp [incr]
-  · have ⟨s1, s2⟩ := loop_sorted w hnowrap _ _ _ hlt hr
+  · have ⟨s1, s2⟩ := loop_sorted w _ _ _ hlt hr
     unfold incr; rw [List.pairwise_cons]
     exact ⟨fun y hy => s2 y hy, s1⟩
-
-/-- the property's "heights strictly increase" at full strength -/
-def locate_increasing_full : Prop :=
-  ∀ (c : Chain) (loc : List Nat) (stop skip maxNum : Nat) (l : List Header),
-    WF c → 1 ≤ maxNum → maxNum < two64 → skip < two64 →
-    locateHeaders c loc stop skip maxNum = .ok l → incr l
 
 /-- witness chain: three blocks 0,1,2 on the main chain -/
 def chain3 : Chain where
@@ -164,19 +157,6 @@ theorem chain3_wf : WF chain3 := by
     split at hh
     · cases hh; rfl
     · cases hh
-
-/-- F19: with `skip = 2^64 − 1` the same header is returned again and again -/
-theorem locate_increasing_full_refuted : ¬ locate_increasing_full := by
-  intro h
-  have := h chain3 [1] 2 (two64 - 1) 3 [⟨1, 1⟩, ⟨1, 1⟩, ⟨1, 1⟩] chain3_wf (by decide) (by decide) (by decide) (by decide)
-  simp [incr] at this
-
-/-- and with `skip = 2^64 − 2` the response walks backwards -/
-theorem locate_backwards_witness :
-    locateHeaders chain3 [2] 2 (two64 - 2) 1000 = .ok [⟨2, 2⟩] ∧
-    locateHeaders (chainOf [(0,0),(1,1),(2,2),(3,3)] [(0,0),(1,1),(2,2),(3,3)]) [2] 3 (two64 - 2) 4
-      = .ok [⟨2, 2⟩, ⟨1, 1⟩, ⟨0, 0⟩, ⟨3, 3⟩] := by
-  constructor <;> decide
 
 /-- "starts at the HIGHEST main-chain locator entry": true when the locator's main-chain
     entries come in descending height order (the shape honest peers send) -/
@@ -225,10 +205,10 @@ theorem locate_no_error (c : Chain) (loc : List Nat) (stop skip maxNum : Nat) (g
       · rename_i hr; exact absurd hr (loop_no_error hc _ _)
       · simp
 
-/-- without wrap-around the response is the arithmetic progression `start, start+(skip+1), …`
-    clipped at the stop block: item `k` is the stop header or sits at height `start + k·(skip+1)` -/
+/-- the response is the arithmetic progression `start, start+(skip+1), …` clipped at the stop
+    block: item `k` is the stop header or sits at height `start + k·(skip+1)` (all `uint64` skips) -/
 theorem locate_progression (c : Chain) (w : WF c) (loc : List Nat) (stop skip maxNum : Nat) (x : Header) (l : List Header) (sh : Header)
-    (hsh : c.byHash stop = some sh) (hnowrap : sh.height + skip < two64)
+    (hsh : c.byHash stop = some sh) (hskip : skip < two64) (hu : sh.height ≤ two64)
     (h : locateHeaders c loc stop skip maxNum = .ok (x :: l)) :
     ∀ k (hk : k < (x :: l).length), (x :: l)[k] = sh ∨ (x :: l)[k].height = x.height + k * (skip + 1) := by
   have ⟨g, sh', hg, hsh', hc⟩ := locate_cases h
@@ -237,7 +217,7 @@ theorem locate_progression (c : Chain) (w : WF c) (loc : List Nat) (stop skip ma
   · cases h0
   · cases h1; intro k hk; simp at hk; subst hk; exact Or.inr (by simp)
   · cases h2
-    have ⟨p1, _⟩ := loop_progression w hnowrap _ _ _ hlt hr
+    have ⟨p1, _⟩ := loop_progression w hskip hu _ _ _ hlt hr
     intro k hk
     cases k with
     | zero => right; simp
@@ -249,7 +229,7 @@ theorem locate_progression (c : Chain) (w : WF c) (loc : List Nat) (stop skip ma
 
 /-- a response shorter than `maxNum` ends exactly at the stop block -/
 theorem locate_reaches_stop (c : Chain) (w : WF c) (loc : List Nat) (stop skip maxNum : Nat) (x : Header) (l : List Header) (sh : Header)
-    (hsh : c.byHash stop = some sh) (hnowrap : sh.height + skip < two64) (h1 : 1 ≤ maxNum) (h2 : maxNum < two64)
+    (hsh : c.byHash stop = some sh) (hskip : skip < two64) (hu : sh.height ≤ two64) (h1 : 1 ≤ maxNum) (h2 : maxNum < two64)
     (h : locateHeaders c loc stop skip maxNum = .ok (x :: l)) (hshort : (x :: l).length < maxNum) :
     ((x :: l).getLast?).map (·.height) = some sh.height := by
   have ⟨g, sh', hg, hsh', hc⟩ := locate_cases h
@@ -262,7 +242,7 @@ theorem locate_reaches_stop (c : Chain) (w : WF c) (loc : List Nat) (stop skip m
   · cases h0
   · cases h1; simp [he]
   · cases h2
-    have ⟨_, p2⟩ := loop_progression w hnowrap _ _ _ hlt hr
+    have ⟨_, p2⟩ := loop_progression w hskip hu _ _ _ hlt hr
     rcases p2 with e | e
     · cases l with
       | nil => simp at e
@@ -286,9 +266,9 @@ theorem blocks_prefix_of_headers (c : Chain) (hasBlock : Nat → Bool) (loc : Li
       exact ⟨hs, hh, fetch_prefix _ _ _ hr⟩
 
 /-- block responses: at most 64 items, all on the main chain, strictly increasing heights,
-    none above the stop block (heights are `uint64` values) -/
+    none above the stop block -/
 theorem blocks_wellformed (c : Chain) (w : WF c) (hasBlock : Nat → Bool) (loc : List Nat) (stop tmo : Nat) (bs : List Header) (sh : Header)
-    (hsh : c.byHash stop = some sh) (hu : sh.height < two64)
+    (hsh : c.byHash stop = some sh)
     (h : locateBlocks c hasBlock loc stop tmo = .ok bs) :
     bs.length ≤ 64 ∧ (∀ x ∈ bs, inMain c x.id = true) ∧ incr bs ∧ (∀ x ∈ bs, x.height ≤ sh.height) := by
   have ⟨hs, hh, hp, _⟩ := blocks_prefix_of_headers c hasBlock loc stop tmo bs h
@@ -298,13 +278,17 @@ theorem blocks_wellformed (c : Chain) (w : WF c) (hasBlock : Nat → Bool) (loc 
     have := hp.length_le
     simp [maxNumOfBlocksPerMsg] at *; omega
   · exact fun x hx => locate_on_main c w loc stop 0 _ hs hh x (hsub x hx)
-  · have := locate_increasing_partial c w loc stop 0 _ hs sh hsh (by omega) hh
+  · have := locate_increasing c w loc stop 0 _ hs hh
     exact List.Pairwise.sublist hp.sublist this
   · exact fun x hx => locate_le_stop c w loc stop 0 _ hs sh hsh hh x (hsub x hx)
 
 /-! ### the hypotheses are satisfiable on non-trivial values (tests, not proofs of the property) -/
 
 example : WF chain3 ∧ Contiguous chain3 3 := ⟨chain3_wf, by intro i hi; simp [chain3, hi]⟩
+/-- the F19 witnesses (repaired by 78882ab0): `skip = 2^64−1` and `skip = 2^64−2` now answer start, stop -/
+example : locateHeaders chain3 [1] 2 (two64 - 1) 3 = .ok [⟨1, 1⟩, ⟨2, 2⟩] := by decide
+example : locateHeaders (chainOf [(0,0),(1,1),(2,2),(3,3)] [(0,0),(1,1),(2,2),(3,3)]) [2] 3 (two64 - 2) 4
+    = .ok [⟨2, 2⟩, ⟨3, 3⟩] := by decide
 example : locateHeaders chain3 [7, 1] 2 0 1000 = .ok [⟨1, 1⟩, ⟨2, 2⟩] := by decide
 example : locateHeaders chain3 [] 2 1 1000 = .ok [⟨0, 0⟩, ⟨2, 2⟩] := by decide
 example : locateBlocks chain3 (fun _ => true) [0] 2 1 = .ok [⟨0, 0⟩, ⟨1, 1⟩] := by decide
